@@ -79,14 +79,20 @@ func figures(list []int64) (n uint64, mean, mn, mx int64) {
 	return uint64(len(list)), sum / int64(len(list)), mn, mx
 }
 
-// compare returns "" if the reported figures are exactly those of list. For an
-// empty list only the count is stated by the property.
+// compare returns "" if the reported figures are exactly those of list. Over an
+// empty list there is no iteration whose duration a figure could state: mean, minimum
+// and maximum are all 0 (what the views print as "0s"); anything else is the duration
+// of an iteration outside the period (or lifetime) the figures stand for.
 func compare(what string, got progress.IterationDurationsSnapshot, list []int64) string {
 	n, mean, mn, mx := figures(list)
 	if got.Count != n {
 		return fmt.Sprintf("%s: count %d, model %d", what, got.Count, n)
 	}
 	if n == 0 {
+		if got.Average != 0 || got.Min != 0 || got.Max != 0 {
+			return fmt.Sprintf("%s: nothing was recorded in it, yet it reports mean/min/max %d/%d/%d - figures of iterations outside it", what,
+				int64(got.Average), int64(got.Min), int64(got.Max))
+		}
 		return ""
 	}
 	if int64(got.Average) != mean || int64(got.Min) != mn || int64(got.Max) != mx {
